@@ -818,7 +818,7 @@ func (a *activation) block(b *ssa.BasicBlock, prev *ssa.BasicBlock, fr *frame, h
 					fr.cnt = map[*ssa.Phi]int{}
 				}
 				fr.cnt[ph]++
-				if fr.cnt[ph] > x.widenAfter() || ((fr.fuzzy || p.fuzzy) && fr.cnt[ph] > 2 && !x.tableMode) {
+				if fr.cnt[ph] > x.widenAfter() || (fr.fuzzy && fr.cnt[ph] > 2 && !x.tableMode) {
 					nv = AV{k: 'N', pos: nv.n >= 1}
 				}
 			}
